@@ -2,8 +2,9 @@
 Regenerates coq/Gen/GenCli.v and coq/Gen/GenConfig.v (property C20) from the CURRENT
 sources of /repo/torrentfile/{cli,commands,torrent}.py.
 
-GenCli.v     one `argspec` record per `add_argument` call of the `create` sub-parser
-             (flags, dest, action, nargs, effective default, const, choices, positional).
+GenCli.v     one `argspec` record per `add_argument` call of the `create` and of the `edit`
+             sub-parser (flags, dest, action, nargs, effective default, const, choices,
+             positional); the dict commands.edit hands to edit_torrent as (key, attr, or_none).
 GenConfig.v  - `cfg_route`: the if/elif chain of commands.parse_config_file over
                `key.lower()`, translated structurally (membership tests, equality tests,
                the rebinding of `val`, the `kwargs[...] = ...` stores);
@@ -101,7 +102,7 @@ ARG_KW_OK = {"action", "dest", "metavar", "help", "nargs", "default", "const", "
 NARGS = {None: "NNone", "+": "NPlus", "?": "NOpt", "*": "NStar"}
 
 
-def create_parser_args(repo):
+def parser_args(repo, name):
     tree = parse(repo, "cli")
     fn = find_def(tree.body, "execute")
     var = None
@@ -109,21 +110,21 @@ def create_parser_args(repo):
     for st in fn.body:
         if isinstance(st, ast.Assign) and isinstance(st.value, ast.Call) \
                 and isinstance(st.value.func, ast.Attribute) and st.value.func.attr == "add_parser" \
-                and st.value.args and isinstance(st.value.args[0], ast.Constant) and st.value.args[0].value == "create":
+                and st.value.args and isinstance(st.value.args[0], ast.Constant) and st.value.args[0].value == name:
             if var is not None or len(st.targets) != 1 or not isinstance(st.targets[0], ast.Name):
-                raise Refuse("create sub-parser: more than one add_parser('create') or odd target")
+                raise Refuse(f"{name} sub-parser: more than one add_parser({name!r}) or odd target")
             if len(st.value.args) != 1:
-                raise Refuse("add_parser('create', ...): extra positional arguments")
+                raise Refuse(f"add_parser({name!r}, ...): extra positional arguments")
             for kw in st.value.keywords:
                 if kw.arg not in PARSER_KW_OK:
-                    raise Refuse(f"add_parser('create'): keyword {kw.arg} is not modelled")
+                    raise Refuse(f"add_parser({name!r}): keyword {kw.arg} is not modelled")
                 if kw.arg == "prefix_chars" and const(kw.value) != "-":
-                    raise Refuse("add_parser('create'): prefix_chars is not '-'")
+                    raise Refuse(f"add_parser({name!r}): prefix_chars is not '-'")
                 if kw.arg == "aliases":
                     aliases = const(kw.value)
             var = st.targets[0].id
     if var is None:
-        raise Refuse("no `<name> = <subparsers>.add_parser('create', ...)` at the top level of cli.execute")
+        raise Refuse(f"no `<name> = <subparsers>.add_parser({name!r}, ...)` at the top level of cli.execute")
 
     specs, func = [], None
     accounted = set()
@@ -150,10 +151,14 @@ def create_parser_args(repo):
             raise Refuse(f"line {node.lineno}: `{var}` is used other than by top-level add_argument/set_defaults")
     flags = [f for s in specs for f in s["flags"]]
     if len(flags) != len(set(flags)):
-        raise Refuse("create sub-parser: an option string is defined twice")
+        raise Refuse(f"{name} sub-parser: an option string is defined twice")
     if not specs:
-        raise Refuse("create sub-parser: no add_argument calls")
+        raise Refuse(f"{name} sub-parser: no add_argument calls")
     return specs, func, aliases
+
+
+def create_parser_args(repo):
+    return parser_args(repo, "create")
 
 
 def one_argument(call):
@@ -207,13 +212,7 @@ def one_argument(call):
             "positional": positional, "line": ln}
 
 
-def gen_cli(repo):
-    specs, func, aliases = create_parser_args(repo)
-    out = ["(* GENERATED by gen/gen_cli.py from torrentfile/cli.py (execute: the `create` sub-parser)",
-           "   -- do not edit.  One record per add_argument call, in source order. *)",
-           "From Coq Require Import String List.", "From TF Require Import Model.ArgParse.",
-           "Import ListNotations.", "Open Scope string_scope.", "",
-           "Definition create_args : list argspec :="]
+def render_table(name, specs):
     recs = []
     for s in specs:
         recs.append("  {| a_flags := %s; a_dest := %s;\n     a_action := %s; a_nargs := %s; a_default := %s;\n"
@@ -221,10 +220,75 @@ def gen_cli(repo):
                     % (qlist([qs(f) for f in s["flags"]]), qs(s["dest"]),
                        "ActStore" if s["action"] == "store" else "ActStoreTrue", s["nargs"], s["default"],
                        s["const"], s["choices"], qbool(s["positional"])))
-    out.append("[\n" + ";\n".join(recs) + "\n].")
-    out.append("")
-    out.append(f"Definition create_func : string := {qs(func or '')}.")
-    out.append(f"Definition create_aliases : list string := {qlist([qs(a) for a in aliases])}.")
+    return f"Definition {name} : list argspec :=\n[\n" + ";\n".join(recs) + "\n]."
+
+
+def edit_mapping(repo):
+    """commands.edit:  metafile = args.<attr>;  editargs = {"key": args.<attr> [or None], ...};
+    return edit_torrent(metafile, editargs)   ->   (metafile attr, [(key, attr, or_none)])"""
+    tree = parse(repo, "commands")
+    fn = find_def(tree.body, "edit")
+    if len(fn.args.args) != 1 or fn.args.vararg or fn.args.kwarg or fn.args.kwonlyargs:
+        raise Refuse("commands.edit: expected one parameter")
+    argsv = fn.args.args[0].arg
+    body = [s for s in strip_doc(fn.body) if not is_logging(s)]
+    if len(body) != 3:
+        raise Refuse("commands.edit: expected `metafile = args.<attr>`, `editargs = {...}`, `return edit_torrent(...)`")
+    a, d, r = body
+
+    def attr_of(e):
+        if isinstance(e, ast.Attribute) and isinstance(e.value, ast.Name) and e.value.id == argsv:
+            return e.attr
+        return None
+    if not (isinstance(a, ast.Assign) and len(a.targets) == 1 and isinstance(a.targets[0], ast.Name) and attr_of(a.value)):
+        raise Refuse(f"line {a.lineno}: expected `<name> = {argsv}.<attr>`")
+    mvar, mattr = a.targets[0].id, attr_of(a.value)
+    if not (isinstance(d, ast.Assign) and len(d.targets) == 1 and isinstance(d.targets[0], ast.Name)
+            and isinstance(d.value, ast.Dict)):
+        raise Refuse(f"line {d.lineno}: expected `<name> = {{...}}` (a dict literal)")
+    dvar = d.targets[0].id
+    entries = []
+    for k, v in zip(d.value.keys, d.value.values):
+        if not (isinstance(k, ast.Constant) and isinstance(k.value, str)):
+            raise Refuse(f"line {d.lineno}: dict key is not a string literal (or is a ** expansion)")
+        if attr_of(v):
+            entries.append((k.value, attr_of(v), False))
+        elif isinstance(v, ast.BoolOp) and isinstance(v.op, ast.Or) and len(v.values) == 2 and attr_of(v.values[0]) \
+                and isinstance(v.values[1], ast.Constant) and v.values[1].value is None:
+            entries.append((k.value, attr_of(v.values[0]), True))
+        else:
+            raise Refuse(f"line {v.lineno}: value `{ast.unparse(v)}` of key {k.value!r} is neither "
+                         f"`{argsv}.<attr>` nor `{argsv}.<attr> or None`")
+    if len({k for k, _, _ in entries}) != len(entries):
+        raise Refuse(f"line {d.lineno}: a key occurs twice in the dict literal")
+    if not (isinstance(r, ast.Return) and isinstance(r.value, ast.Call) and isinstance(r.value.func, ast.Name)
+            and r.value.func.id == "edit_torrent" and not r.value.keywords and len(r.value.args) == 2
+            and isinstance(r.value.args[0], ast.Name) and r.value.args[0].id == mvar
+            and isinstance(r.value.args[1], ast.Name) and r.value.args[1].id == dvar):
+        raise Refuse(f"line {r.lineno}: expected `return edit_torrent({mvar}, {dvar})`")
+    return mattr, entries
+
+
+def gen_cli(repo):
+    specs, func, aliases = parser_args(repo, "create")
+    especs, efunc, ealiases = parser_args(repo, "edit")
+    mattr, emap = edit_mapping(repo)
+    out = ["(* GENERATED by gen/gen_cli.py from torrentfile/cli.py (execute: the `create` and `edit`",
+           "   sub-parsers, one record per add_argument call, in source order) and torrentfile/commands.py",
+           "   (edit: the dict handed to edit_torrent) -- do not edit. *)",
+           "From Coq Require Import String List.", "From TF Require Import Model.ArgParse.",
+           "Import ListNotations.", "Open Scope string_scope.", "",
+           render_table("create_args", specs), "",
+           f"Definition create_func : string := {qs(func or '')}.",
+           f"Definition create_aliases : list string := {qlist([qs(a) for a in aliases])}.", "",
+           render_table("edit_args", especs), "",
+           f"Definition edit_func : string := {qs(efunc or '')}.",
+           f"Definition edit_aliases : list string := {qlist([qs(a) for a in ealiases])}.", "",
+           "(* commands.edit: edit_torrent(args.<edit_metafile_attr>, {key: args.<attr> [or None]}) as",
+           "   (key, attr, or_none) in the order of the dict literal *)",
+           f"Definition edit_metafile_attr : string := {qs(mattr)}.",
+           "Definition edit_map : list (string * string * bool) :=",
+           "  " + qlist([f"({qs(k)}, {qs(a)}, {qbool(o)})" for k, a, o in emap]) + "."]
     return "\n".join(out) + "\n"
 
 
